@@ -100,6 +100,7 @@ const (
 	RWithEOF
 	REarlyEOF
 	RError
+	RDataWithError // deliver the bytes asked for AND the injected error in the same call
 )
 
 // ChoiceReader is an io.Reader whose answers are chosen by an Env.
@@ -141,7 +142,7 @@ func (r *ChoiceReader) Read(p []byte) (int, error) {
 		if rem <= len(p) {
 			opts = append(opts, RWithEOF)
 		}
-		opts = append(opts, REarlyEOF, RError)
+		opts = append(opts, REarlyEOF, RError, RDataWithError)
 	}
 	ans := opts[r.Env.Choose(len(opts))]
 	n := rem
@@ -170,6 +171,11 @@ func (r *ChoiceReader) Read(p []byte) (int, error) {
 	case RError:
 		r.InjectedError = true
 		return 0, ErrInjected
+	case RDataWithError:
+		copy(p, r.Data[r.Pos:r.Pos+n])
+		r.Pos += n
+		r.InjectedError = true
+		return n, ErrInjected
 	}
 	copy(p, r.Data[r.Pos:r.Pos+n])
 	r.Pos += n
@@ -236,7 +242,7 @@ func (r *PosReader) Read(p []byte) (int, error) {
 	if r.Pos >= limit {
 		if r.FailAt >= 0 && r.Pos >= r.FailAt {
 			r.Hit = true
-			if r.Mode == "error" {
+			if r.Mode == "error" || r.Mode == "error-with-data" {
 				return 0, ErrInjected
 			}
 			return 0, io.EOF
@@ -252,6 +258,10 @@ func (r *PosReader) Read(p []byte) (int, error) {
 	}
 	copy(p, r.Data[r.Pos:r.Pos+n])
 	r.Pos += n
+	if r.Mode == "error-with-data" && r.FailAt >= 0 && r.Pos >= r.FailAt {
+		r.Hit = true
+		return n, ErrInjected
+	}
 	return n, nil
 }
 
